@@ -89,6 +89,8 @@ func optsFor(prop string) GenOpts {
 	case "C07":
 		o.PCOE = 0.15
 	case "C09":
+	case "C03":
+		o.Wide, o.PParallel = true, 0.6
 	case "C01":
 		o.PPred, o.PEnd = 0.4, 0.7
 	case "C20":
@@ -291,6 +293,9 @@ func specLabels(s *rt.Spec) []string {
 		if !sl.Index {
 			l = append(l, "slice-noindex")
 		}
+		if sl.Boxed && !sl.Named {
+			l = append(l, "coll:struct-field")
+		}
 	}
 	for _, mp := range s.Maps {
 		l = append(l, "map")
@@ -490,6 +495,12 @@ func runCase(p *PackageSpec, prop string, scn int, race bool, tag string, replay
 	cmd := exec.Command(filepath.Join(dir, "inner.test"), rargs...)
 	cmd.Dir = in
 	cmd.Env = append(goEnv(), "GORACE=halt_on_error=1")
+	if prop == "C03" {
+		// the default limit is max(GOMAXPROCS, 4): run under few processors too,
+		// so that more tasks than the default limit can be runnable at once
+		gm := []string{"2", "3", "16", "1"}[rapidSeedFor(p, tag)%4]
+		cmd.Env = append(cmd.Env, "GOMAXPROCS="+gm)
+	}
 	var buf bytes.Buffer
 	cmd.Stdout, cmd.Stderr = &buf, &buf
 	err = cmd.Run()
